@@ -114,6 +114,7 @@ func runC13(p *an.Prog, r *an.Run, tier string) {
 	checkSingleStoreWiring(p, r)
 	checkKeySpacesKnown(p, r)
 	checkKeyOperandTypes(p, r)
+	checkBadgerWriters(p, r)
 	// accepted nonces are among what must be read back: the persisted record's lifetime (C05.fresh) and the rest of the
 	// nonce-store rules
 	checkNonceStores(p, r)
@@ -398,6 +399,35 @@ func runC13(p *an.Prog, r *an.Run, tier string) {
 			bad = append(bad, "Migrate does not check that a step advanced the stored version (a step that forgets to bump it would loop or be skipped silently)")
 		}
 	}
+	// a database is refused for its VERSION only (newer than supported, older than the oldest step) or because a step or
+	// a store access failed: no refusal of Migrate hangs on another look at the database (format 0 is "no version key":
+	// "a non-empty directory without a version stamp is somebody else's" locks out every pre-versioning database)
+	for _, f := range an.WithAnon(mig) {
+		an.AllInstrs(f, func(in ssa.Instruction) {
+			ret, ok := in.(*ssa.Return)
+			if !ok || len(ret.Results) == 0 || (f.Recover != nil && ret.Block() == f.Recover) {
+				return
+			}
+			if cls, _ := returnClass(ret); cls == "nil" {
+				return
+			}
+			ctl := an.ControllingIfs(ret.Block())
+			if len(ctl) == 0 {
+				return
+			}
+			cond := ctl[0].If.Cond
+			for {
+				u, isNot := cond.(*ssa.UnOp)
+				if !isNot || u.Op != token.NOT {
+					break
+				}
+				cond = u.X
+			}
+			if c, isCall := cond.(*ssa.Call); isCall {
+				bad = append(bad, "Migrate refuses a database at "+p.Pos(ret.Pos())+" on the verdict of "+callName(c)+" ("+p.Pos(c.Pos())+"), not on its version or on a failed step: databases of a supported older format can be locked out")
+			}
+		})
+	}
 	r.Check(len(bad) == 0, "migration", "(*badger.Migration).Migrate", mig.Pos(), "steps run inside one Update; a current database is left untouched; each step must advance the version", "%s", strings.Join(bad, "; "))
 
 	// steps
@@ -626,4 +656,115 @@ func checkKeySpacesKnown(p *an.Prog, r *an.Run) {
 	}
 	r.Floor("key-prefix-constants", n, 6)
 	r.Check(len(bad) == 0, "migration", "key-spaces", token.NoPos, "every key space used is part of the current on-disk format", "%s", strings.Join(dedup(bad), "; "))
+}
+
+// checkBadgerWriters: what is stored stays stored until one of the store's own operations changes it: every function of
+// the badger package that writes or deletes keys (directly or through the package's set helpers) is a method of the
+// Store / NonceStore contract, a migration step (or the version stamp helper they use), one of the helpers themselves, or
+// a transaction wrapper. A clean-up added to Open ("forget nodes not seen for 30 days") makes registrations, peer sets
+// and with them trial balances disappear at a restart.
+func checkBadgerWriters(p *an.Prog, r *an.Run) {
+	d := badgerDriver(p)
+	if d == nil {
+		r.Undec("writers", "badger", token.NoPos, "badger driver not found")
+		return
+	}
+	allowed := map[*ssa.Function]bool{}
+	ms := types.NewMethodSet(types.NewPointer(d))
+	for _, ifn := range []string{"Store", "NonceStore", "BalanceStore", "AccountStore"} {
+		iface := p.Iface("pool/store", ifn)
+		if iface == nil {
+			continue
+		}
+		it := iface.Underlying().(*types.Interface)
+		for i := 0; i < it.NumMethods(); i++ {
+			if sel := ms.Lookup(d.Obj().Pkg(), it.Method(i).Name()); sel != nil {
+				if f := p.SSA.FuncValue(sel.Obj().(*types.Func)); f != nil {
+					allowed[f] = true
+				}
+			}
+		}
+	}
+	if steps, _, ok := migrationSteps(p); ok {
+		for _, st := range steps {
+			allowed[st] = true
+		}
+	}
+	isSetHelper := func(f *ssa.Function) bool {
+		if f == nil {
+			return false
+		}
+		switch an.Ident(f.Name()) {
+		case "setItem", "setExpiringItem", "setVersion":
+			return f.Pkg != nil && f.Pkg.Pkg.Path() == pkgBadger
+		}
+		return false
+	}
+	// helpers of allowed functions: a function all of whose call sites lie in allowed functions (or their closures)
+	anc := func(fn *ssa.Function) bool {
+		for x := fn; x != nil; x = x.Parent() {
+			if allowed[x] {
+				return true
+			}
+		}
+		return false
+	}
+	for changed := true; changed; {
+		changed = false
+		for _, fn := range badgerPkgFuncs(p) {
+			if fn.Parent() != nil || allowed[fn] || p.IsTestFunc(fn) {
+				continue
+			}
+			sites := 0
+			all := true
+			for _, site := range p.StaticSites(fn) {
+				if p.IsTestFunc(site.Parent()) {
+					continue
+				}
+				sites++
+				if !anc(site.Parent()) {
+					all = false
+				}
+			}
+			if sites > 0 && all {
+				allowed[fn] = true
+				changed = true
+			}
+		}
+	}
+	var bad []string
+	nW := 0
+	for _, fn := range badgerPkgFuncs(p) {
+		if p.IsTestFunc(fn) || strings.HasSuffix(p.File(fn.Pos()), "testsuite.go") {
+			continue
+		}
+		top := fn
+		for top.Parent() != nil {
+			top = top.Parent()
+		}
+		if isSetHelper(top) {
+			continue
+		}
+		if _, _, isW := txnWrapperInfo(p, top); isW {
+			continue
+		}
+		for _, c := range an.Calls(fn, false) {
+			f := an.CallObj(c)
+			writes := isBadgerTxnMethod(f, "Set", "Delete", "SetEntry") || isSetHelper(c.Common().StaticCallee())
+			if !writes {
+				continue
+			}
+			nW++
+			okFn := false
+			for x := fn; x != nil; x = x.Parent() {
+				if allowed[x] {
+					okFn = true
+				}
+			}
+			if !okFn {
+				bad = append(bad, an.FuncName(top)+" writes or deletes stored keys ("+callName(c)+" at "+p.Pos(c.Pos())+") but is neither an operation of the store contract nor a migration step: stored records change without anybody having asked the store to change them")
+			}
+		}
+	}
+	r.Check(len(bad) == 0 && nW >= 10, "writers", "badger", token.NoPos, "stored keys are written and deleted by the store's operations and migration steps only", "%s (write sites: %d)", strings.Join(dedup(bad), "; "), nW)
 }
